@@ -10,7 +10,7 @@ RULE = ('table of (operation, state in which it can complete without waiting) x 
         'before: await of true conditions / done task / ended scope / instant, sleep 0, flag and tracked sets (changing or not), '
         'queue and channel put/get(buffered)/close (open or closed)/iteration, borrow/claim/give back, '
         'increase/decrease/set, pipe transfers (zero volume, unbounded, finite), interval/delay steps incl. period 0, collect '
-        '(empty and non-empty), leaving an (empty) scope block, leaving a scope block in the turn after a child failed (cancellation still queued), giving borrowed / claimed resources back when the block is left normally, by an exception, by the interrupt of an until-scope or by a cancellation of the task of the holder (next to activities that stay runnable), tickers whose steps pass no time (body takes exactly the period, period 0) next to activities that stay runnable, iterations whose steps pass no time (a queue with a backlog, a queue filled by several puts of one time step, first() over activities that finish together) next to activities that stay runnable; each spinner must log a turn between the start marker 100 and the '
+        '(empty and non-empty), leaving an (empty) scope block, leaving a scope block in the turn after a child failed (cancellation still queued), giving borrowed / claimed resources back when the block is left normally, by an exception, by the interrupt of an until-scope or by a cancellation of the task of the holder (next to activities that stay runnable), tickers whose steps pass no time (body takes exactly the period, period 0) next to activities that stay runnable, every operation of the table again right after a postponement of the same activity was cut short by the interrupt of an until-scope, iterations whose steps pass no time (a queue with a backlog, a queue filled by several puts of one time step, first() over activities that finish together) next to activities that stay runnable; each spinner must log a turn between the start marker 100 and the '
         'completion marker 101 of the operation; the table is enumerated completely in every run (exhaustive over the table); '
         'thorough adds random prefixes; non-trivial = every case')
 
@@ -54,6 +54,8 @@ OPS = [
     ('scope-empty', [], ['scope', 7, ['none']]),
     ('scope-finished-children', [], ['scope', 7, ['none'], ['spawn', 7, 30, None, None, False, ['prog', ['log', 1]]], ['sleep', 1]]),
     ('await-done-task', [['scope', 7, ['none'], ['spawn', 7, 30, None, None, False, ['prog', ['ret', 3]]]]], ['awaittask', 30]),
+    ('await-task-done-condition', [['scope', 7, ['none'], ['spawn', 7, 30, None, None, False, ['prog', ['ret', 3]]]]], ['await', ['done', 30]]),
+    ('await-not-done-of-running-task', [['spawn', 0, 31, None, None, True, ['prog', ['sleep', 50]]], ['sleep', 1]], ['await', ['inv', ['done', 31]]]),
     ('await-ended-scope', [['scope', 7, ['none']]], ['awaitscope', 7]),
 ]
 
@@ -111,6 +113,18 @@ def iter_step_case(kind, k, n=3):
 
 
 ITER_STEPS = ['queue-backlog', 'queue-producers', 'first-ties']
+
+
+def after_interrupt_case(op, setup, k):
+    """the operation right after a postponement of the same activity was cut short by an interrupt: inside `until(flag)` the
+    activity sets the flag itself - the scope's interrupt hits the postponement of `set` - and goes on to the operation in the
+    same time step, next to k activities that stay runnable (a wake-up that is reused instead of made anew would fire at once)"""
+    spin = [['sleep', 0], None] * 16
+    roots = [['prog', ['sleep', 1]] + list(setup) + [['scope', 8, ['cond', ['flag', 1]], ['set', 1, True], ['log', 7]], ['log', 100], op, ['log', 101]]]
+    for i in range(k):
+        roots.append(['prog', ['sleep', 1]] + [['log', 200 + i] if x is None else x for x in spin])
+    return ['scenario', ['debug', 1], ['start', 0], ['flags', 2], ['locks', 1], ['queues', 1], ['chans', 1], ['tracked', 0],
+            ['resources', ['res', 0, 5, 5], ['res', 1, 4]], ['pipes', 2, 'inf'], ['roots'] + roots]
 
 
 #: leaving a borrow / claim block while holding: (name, how the holder is thrown out)
@@ -172,6 +186,13 @@ def run(tier, seed, drv):
                 st.judge_params = str(k)
                 st.check(iter_step_case(kind, k, n), meta={'operation': 'iteration-step-' + kind, 'spinners': k}, nontrivial=lambda impl: True)
                 st.res.count('op:iteration-step-' + kind)
+    for name, setup, op in OPS:
+        if name in ('await-inverse-flag', 'set-flag', 'await-connective') or any(x and x[0] in ('scope', 'spawn') for x in setup):
+            continue        # (they use flag 1 / need a scope of their own around the set-up)
+        for k in (1, 2):
+            st.judge_params = str(k)
+            st.check(after_interrupt_case(op, setup, k), meta={'operation': 'after-interrupt-' + name, 'spinners': k}, nontrivial=lambda impl: True)
+            st.res.count('op:after-interrupt')
     for k in (1, 2, 3):
         st.judge_params = str(k)
         st.check(failed_child_exit_case(k), meta={'operation': 'scope-exit-after-child-failure', 'spinners': k}, nontrivial=lambda impl: True)
